@@ -1580,8 +1580,16 @@ def analysis_globals(p):
     return g
 
 
-def coq_globals(p):
+def coq_globals(p, fp=None):
+    """Truth values of the module-level names as the Coq side (cic_of) gets them.  When the real analyzer excludes the
+    function's parameters from the constant-condition test (repaired code; decided by probing it), the parameters of
+    `fp` are removed: a parameter shadows a module global of the same name."""
     g = analysis_globals(p)
+    if fp is not None:
+        from harness import c01_run
+        if c01_run.constant_if_excludes_parameters():
+            for n in [t[0] for t in fp["tparams"]] + [a[0] for a in fp["aparams"]]:
+                g.pop(n, None)
     return "[" + "; ".join(f"({_cs(k)}, {'true' if v else 'false'})" for k, v in sorted(g.items())) + "]"
 
 
